@@ -6,4 +6,4 @@ def run(tier, replay=None):
     return run_rt("C02", tier, replay, "deps", COMMON_ASSUMPTIONS + [
         "Deps is the per-instance provenance relation of MroSem (argument data, disabling condition, map source, enclosing preflights); intra-fork order split < chunks < join",
         "adversarial schedules: every producer instance in turn is held back until nothing else can move, plus seeded random interleavings",
-    ])
+    ], mc=("Sched", "Dyn", "Dis"))
